@@ -79,7 +79,8 @@ class _TimeShim:
         self._loop = loop
 
     def time(self) -> float:
-        return EPOCH_TS + self._loop.now_ns() / NS
+        # the wall clock may be stepped (NTP correction, manual change) independently of the monotonic clock
+        return EPOCH_TS + self._loop.now_ns() / NS + getattr(self._loop, "wall_offset", 0.0)
 
     def monotonic(self) -> float:
         return self._loop.now_ns() / NS
